@@ -9,6 +9,7 @@ import Rox.Props.C09
 import Rox.Parse
 import Rox.Generated
 import Rox.Lemmas.TokSpec
+import Rox.Lemmas.SafeParse
 
 namespace Rox.Props.C01
 open Rox Rox.Lemmas
@@ -159,5 +160,28 @@ offsets and a source range inside the input. -/
 theorem tokens_are_slices (txt : Bytes) (hv : ValidUtf8 txt) (allowDtd : Bool) :
     ∀ t ∈ (tokenize Generated.tables txt allowDtd).1, TokOk txt t :=
   (parseDocument_spec Generated.tables generated_tables_ok txt hv allowDtd).toks
+
+/-- **Parsing is total.** For every input that is valid UTF-8 (the invariant of the `&str` that
+`Document::parse` takes) and every option value (`nodes_limit` is a `u32`, `allow_dtd` either way,
+with or without the `positions` feature) `parse` returns `Ok` or `Err`: it reaches none of the
+`unwrap` / `expect` / index / slice / `unreachable!` / `from_utf8` sites of tokenizer, builder and
+final checks (each of them is an explicit `panic` outcome of the model), and every loop ends before
+its fuel does (entity recursion included: the loop detector bounds it by 10 levels, the model has
+12). The tables are those of the built crate. -/
+theorem parse_total (txt : Bytes) (hv : ValidUtf8 txt) (opt : Opt) (hlim : opt.nodesLimit ≤ 4294967295) :
+    (∃ d, parse Generated.tables txt opt = .ok d) ∨ (∃ e, parse Generated.tables txt opt = .err e) := by
+  have h := parseCtx_safe Generated.tables generated_tables_ok txt hv opt hlim
+  unfold parse
+  cases hr : parseCtx Generated.tables txt depthFuel opt with
+  | ok c => exact Or.inl ⟨c.doc, rfl⟩
+  | err e => exact Or.inr ⟨e, rfl⟩
+  | panic p => rw [hr] at h; exact absurd h (by simp [Res.Safe])
+  | fuel => rw [hr] at h; exact absurd h (by simp [Res.Safe])
+
+/-- The premises of `parse_total` are satisfiable: `<a>é</a>` (with a two-byte character) is
+valid UTF-8, and the default limit fits. -/
+example : ValidUtf8 [60, 97, 62, 195, 169, 60, 47, 97, 62] ∧ ({} : Opt).nodesLimit ≤ 4294967295 := by
+  refine ⟨?_, by decide⟩
+  unfold ValidUtf8; decide
 
 end Rox.Props.C01
